@@ -141,6 +141,7 @@ pub struct LiveServer<C: Send + Sync + 'static> {
 }
 
 pub struct ServerOpts {
+    pub tls: Option<dropshot::ConfigTls>,
     pub mode: HandlerTaskMode,
     pub default_body_max: usize,
     pub rt: RtKind,
@@ -149,7 +150,7 @@ pub struct ServerOpts {
 
 impl Default for ServerOpts {
     fn default() -> Self {
-        ServerOpts { mode: HandlerTaskMode::Detached, default_body_max: 1024, rt: RtKind::MultiThread(2), version_policy: None }
+        ServerOpts { tls: None, mode: HandlerTaskMode::Detached, default_body_max: 1024, rt: RtKind::MultiThread(2), version_policy: None }
     }
 }
 
@@ -178,6 +179,9 @@ impl<C: Send + Sync + 'static> LiveServer<C> {
             let mut b = ServerBuilder::new(api, ctx, log).config(cfg);
             if let Some(vp) = opts.version_policy {
                 b = b.version_policy(vp);
+            }
+            if opts.tls.is_some() {
+                b = b.tls(opts.tls);
             }
             b.start().map_err(|e| format!("{e}"))?
         };
